@@ -69,10 +69,19 @@ Proof.
 Qed.
 
 (* ---- the pointer word ---- *)
-Lemma lor_sweep : forallb (fun v => N.lor v pointer_flag16 =? v + 49152) (upto (N.to_nat 16384)) = true.
-Proof. vm_compute. reflexivity. Qed.
+(* v < 2^14 and the flag 0xC000 have no bit in common (proved arithmetically: a 16384-case sweep is fast under
+   vm_compute but takes minutes in coqchk) *)
 Lemma lor_pointer v : v < 16384 -> N.lor v pointer_flag16 = v + 49152.
-Proof. intro H. apply N.eqb_eq. exact (proj1 (forallb_forall _ _) lor_sweep v (In_upto (N.to_nat 16384) v ltac:(lia))). Qed.
+Proof.
+  intro H. change pointer_flag16 with 49152. assert (L : N.land v 49152 = 0).
+  { apply N.bits_inj_0. intro n. rewrite N.land_spec. destruct (N.lt_ge_cases n 14) as [Hn|Hn].
+    - change 49152 with (3 * 2 ^ 14). rewrite (N.mul_pow2_bits_low 3 14 n Hn). apply andb_false_r.
+    - assert (T : N.testbit v n = false).
+      { apply N.testbit_false. rewrite N.div_small; [reflexivity|].
+        apply N.lt_le_trans with (2 ^ 14); [exact H|]. apply N.pow_le_mono_r; [discriminate|exact Hn]. }
+      rewrite T. reflexivity. }
+  rewrite <- (N.lxor_lor _ _ L). symmetry. apply N.add_nocarry_lxor, L.
+Qed.
 
 Lemma pointer_bytes v : v < 16384 ->
   wr16 (N.lor v pointer_flag16) = [192 + v / 256; v mod 256] /\ 192 <= 192 + v / 256 < 256 /\ v mod 256 < 256 /\
